@@ -44,6 +44,9 @@ pub struct FontInfo {
     pub dir: Vec<disk::DirEntry>,
     pub woff2_inner: Option<(usize, Option<usize>)>,
     pub broken: bool,
+    /// Per table: the (offset, width) of every primitive read the library makes while walking
+    /// the pristine table (recorded through the verif hook on first use).
+    pub consumed: std::cell::RefCell<BTreeMap<String, Rc<Vec<(usize, u8)>>>>,
 }
 
 impl FontInfo {
@@ -331,6 +334,7 @@ impl Generator {
             dir,
             woff2_inner,
             broken,
+            consumed: std::cell::RefCell::new(BTreeMap::new()),
         });
         self.info.insert(rel.to_string(), info.clone());
         Ok(info)
@@ -941,6 +945,24 @@ fn gen_table_fault(rng: &mut Rng, info: &FontInfo, targets: &[String]) -> Option
             rng.usize_below(len)
         }
     };
+    // read-trace-guided: a boundary value on a field the parsers were seen to consume
+    if rng.pct(22) {
+        let fields = consumed_fields(info, &target);
+        if !fields.is_empty() {
+            // half of the time among the first 64 consumed fields (headers, counts, offsets)
+            let k = if rng.pct(50) { rng.usize_below(fields.len().min(64)) } else { rng.usize_below(fields.len()) };
+            let (off, width) = fields[k];
+            let width = if width == 3 { 2 } else { width };
+            let old = read_be(&data, off, width);
+            return Some(Fault::Set {
+                target,
+                off,
+                width,
+                val: boundary_value(rng, width, len, old),
+                field: format!("consumed@{}", off),
+            });
+        }
+    }
     Some(match rng.weighted(&[12, 14, 34, 10, 6, 8, 6, 4, 6]) {
         0 => Fault::BitFlip {
             target,
@@ -1050,6 +1072,46 @@ fn gen_table_fault(rng: &mut Rng, info: &FontInfo, targets: &[String]) -> Option
                 .to_string(),
         },
     })
+}
+
+/// The fields of `tag` that the parsers actually interpret: (offset, width) of every primitive
+/// read made while the typed walk (and, for cmap, the mapping ops) runs over the pristine table.
+/// Read-trace-guided fault placement: boundary values land exactly on consumed fields, including
+/// deep structures (anchors, device tables, DICT operands, tuple headers) no hand-written locator names.
+fn consumed_fields(info: &FontInfo, tag: &str) -> Rc<Vec<(usize, u8)>> {
+    if let Some(v) = info.consumed.borrow().get(tag) {
+        return v.clone();
+    }
+    let t = crate::trace::tag_from_str(tag);
+    let mut out: Vec<(usize, u8)> = Vec::new();
+    if let Some(data) = info.disk.tables.get(&t) {
+        let (lo, hi) = (data.as_ptr() as usize, data.as_ptr() as usize + data.len());
+        let sim = crate::provider::SimProvider::new(info.disk.clone());
+        let reads = guard(|| {
+            allsorts::verif::record_reads(true);
+            let _ = crate::walk::parse_table(&sim, t);
+            if tag == "cmap" {
+                let _ = crate::walk::cmap_ops(&sim, &[0x20, 0x41, 0x3042, 0x1F600, 0xFFFF], true);
+            }
+            if tag == "name" {
+                let _ = crate::walk::names(&sim, &[1, 2, 4, 6, 16, 17, 25]);
+            }
+            allsorts::verif::take_reads()
+        });
+        allsorts::verif::record_reads(false);
+        if let Ok(reads) = reads {
+            let mut set = std::collections::BTreeSet::new();
+            for (addr, w) in reads {
+                if addr >= lo && addr + usize::from(w) <= hi {
+                    set.insert((addr - lo, w));
+                }
+            }
+            out = set.into_iter().collect();
+        }
+    }
+    let rc = Rc::new(out);
+    info.consumed.borrow_mut().insert(tag.to_string(), rc.clone());
+    rc
 }
 
 /// Pristine loca offsets of the font (harness' own byte arithmetic).
@@ -1423,6 +1485,7 @@ fn gen_install(rng: &mut Rng, info: &FontInfo, prop: &str) -> Option<(FontInfo, 
         return None;
     }
     let mut modified = info.clone();
+    modified.consumed.borrow_mut().clear();
     for s in &surgeries {
         if surgery::apply(&mut modified.disk, s).is_err() {
             return None;
